@@ -48,9 +48,10 @@ class Engine:
         ctx = self.ctx
         key = (family, ctx.assertions, ch, call, planspec)
         if self.lockstep:
-            with ctx.guard({"family": "NM+LM", "state": [list(c) for c in ch], "call": F._jsonable(call), "plan": F._jsonable(planspec)}):
-                exn = F.execute("NM", ch, call, planspec, snaps_on)
-                exl = F.execute("LM", ch, call, planspec, snaps_on)
+            pair = ("VALNM", "VALLM") if family == "VALNM" else ("NM", "LM")
+            with ctx.guard({"family": "+".join(pair), "state": [list(c) for c in ch], "call": F._jsonable(call), "plan": F._jsonable(planspec)}):
+                exn = F.execute(pair[0], ch, call, planspec, snaps_on)
+                exl = F.execute(pair[1], ch, call, planspec, snaps_on)
                 self.observe(exn, key)
                 F.mon_c18(ctx, exn, exl)
                 return exn
@@ -190,9 +191,20 @@ class Engine:
                         lvl = 1 if self.faults and (si * 7919 + ci * 31 + ctx.seed) % 40 == 0 else 0
                         self.explore(fam, ch, call, lvl)
                 ctx.exhaustive.append("family %s: all %d ordered forests over 5 nodes x all %d repetition-free calls fault-free" % (fam, len(forests), len(calls)))
-        # P4: other node classes (Node, AnyNode, symlink mixes)
+        # P4': lock step also for value-equality classes (equal-comparing distinct siblings)
+        if self.lockstep:
+            for k in (2, 3, 4):
+                calls = list(F.all_calls(k, "LM", itkinds=("list",)))
+                for si, ch in enumerate(gen.ordered_forests(k)):
+                    for ci, call in enumerate(calls):
+                        if not self.mine():
+                            continue
+                        if k == 4 and (si + ci) % 6:
+                            continue
+                        self.explore("VALNM", ch, call, 1 if (si + ci) % 3 == 0 else 0)
+        # P4: other node classes (Node, AnyNode, symlink mixes, value-equality and falsy classes)
         if not self.lockstep:
-            for fam in ("Node", "AnyNode", "MIX"):
+            for fam in ("Node", "AnyNode", "MIX", "VALNM", "VALLM", "FALSY"):
                 for k in (2, 3) + ((4,) if T else ()):
                     calls = list(F.all_calls(k, fam, itkinds=("list",)))
                     stride = 1 if (k < 4) else 6
@@ -216,7 +228,7 @@ class Engine:
             return ("setparent", n, p)
         if r < 0.62:
             return ("delchildren", rng.randrange(k))
-        if r < 0.66 and fam != "LM":
+        if r < 0.66 and self.F.base_family(fam) != "LM":
             n = rng.randrange(k)
             if rng.random() < 0.5:
                 return ("setparent", n, ("nonnode", rng.choice(["object", "str", "int", "dict", "plainclass"])))
@@ -244,7 +256,7 @@ class Engine:
         T = self.thorough
         total = 6000 if T else 480
         per = max(1, total // ctx.nshards)
-        fams = ("NM",) if self.lockstep else ("NM", "LM", "MIX", "Node", "AnyNode")
+        fams = ("NM",) if self.lockstep else ("NM", "LM", "MIX", "Node", "AnyNode", "VALNM", "VALLM", "FALSY")
         for h in range(per):
             rng = ctx.rng("hist", h)
             fam = fams[h % len(fams)] if h % 3 else fams[h % 2 % len(fams)]
@@ -318,8 +330,8 @@ def replay(ctx, wit, monitors, lockstep=False):
             eng.apply(ex)
         return
     fam = case.get("family", "NM")
-    if fam == "NM+LM":
-        fam = "NM"
+    if "+" in fam:
+        fam = fam.split("+")[0]
     if "history_prefix" in case:
         hf = case["history_family"]
         rec = F.Rec(F.materialise(hf, tup(case["history_state"])))
